@@ -71,7 +71,8 @@ def complete(default, x):
     if type(x) is list or type(x) is tuple:
         return [complete(default, v) for v in x]
     if type(x) is dict:
-        return {k: complete(default, v) for k, v in x.items()}
+        # keys too: a passed-through type (an Enum key under enums=True) is left untouched wherever it is
+        return {complete(default, k): complete(default, v) for k, v in x.items()}
     return complete(default, default(x))
 
 
